@@ -114,7 +114,7 @@ func runFree(sc *Scenario, r *hx.Rand) *Outcome {
 	for i, a := range sc.Actors {
 		i, a := i, a
 		switch a.Kind {
-		case "peer", "probe":
+		case "peer", "probe", "fault":
 			continue
 		case "serve":
 			o.served = true
